@@ -2,7 +2,7 @@
    Scheduler bookkeeping at message level (Model/Master.v, the same wakeups logic is used by
    the nested scheduler, whose `when <= time` rule is modelled in Model/Sim.v).
    Property theorems only. *)
-From TV Require Import Base Model.Wiring Model.Ticker Model.Master Proofs.MasterP.
+From TV Require Import Base Model.Wiring Model.Ticker Model.Master Proofs.MasterP Model.PyLib Gen.SourceFuns Proofs.GenWakeupsP.
 Open Scope Z_scope.
 
 (* get_first_wakeups: the time chosen is the earliest pending one, and the components chosen are
@@ -83,3 +83,13 @@ Proof. intros w c c' x H. apply lookup_upd_other. exact H. Qed.
 Example C06_nonvacuous :
   first_wakeups [(3%positive, 700); (4%positive, 300); (5%positive, 300)] = Some (300, [4%positive; 5%positive]).
 Proof. vm_compute. reflexivity. Qed.
+
+(* the tie to the source: [first_wakeups] and the wakeup table update of the master machine ARE
+   BaseScheduler.get_first_wakeups / add_wakeup -- the left-hand sides are regenerated from /repo by the function
+   translator (harness/gen_funs.py) on every run *)
+Theorem C06_first_wakeups_is_source : forall w : list (comp * Z),
+  gen_get_first_wakeups w = match first_wakeups w with None => ([], None) | Some (m, r) => (r, Some m) end.
+Proof. exact first_wakeups_master_is_source. Qed.
+
+Theorem C06_add_wakeup_is_source : forall (w : list (comp * Z)) c t, gen_add_wakeup w c t = upd c t w.
+Proof. exact add_wakeup_is_source. Qed.
